@@ -63,7 +63,6 @@ var c11DefExprs = []string{"", "20", "6 | 9", "d4 + 2"}
 // under the VM's own flags, on first use), inside and outside function bodies and computed values
 var c11CfgProgs = []string{"d", "2d + 1", "func fd() { d }; fd() + fd()", "&cd = 2d; cd + cd", "d + d", "`{d}`", "3d k1", "5 | 2", "6 & 3", "1/0 + 1", "3d6", "[d, d].sum()"}
 
-
 // programs: syntax errors of every message kind (their text depends on the language), runtime errors, values with dice
 var c11ErrProgs = []string{"1 + (2 * ", "", "[1, 2", "{'a': 1", "'abc", "1 +", "@@", ")", "`a{1", "x = ", "2d6 + * 3", "f(1,", "1 ? 2 :", "力量 + (", "1 +\n  (2 *\n"}
 
